@@ -11,7 +11,7 @@
    commodity the price is expressed in); the priced commodity is the other end of the
    edge.  The graph is the list of its edges in creation order (boost adjacency_list
    with vecS: edge and adjacency iteration follow creation order). *)
-From LedgerV Require Import Base.Prelude Gen.PriceMemo Gen.CostDate.
+From LedgerV Require Import Base.Prelude Gen.PriceMemo Gen.CostDate Gen.PercentExpr.
 Local Open Scope Z_scope.
 
 Definition comm := str.
@@ -309,6 +309,32 @@ Definition prims (h : history) : list comm :=
 Definition bal_row (l : list item) (held : list holding) (tgt : option comm) (D : Z) : list (comm * Q) :=
   let h := history_of l in
   convert_all (build h) (prims h) held tgt D.
+
+(* `bal --percent -X T` / `--percent -V` (report.cc:167-177): the total expression becomes
+     (__tmp = market(parent.total, value_date, exchange);
+      ((is_account & parent & __tmp) ? percent(scrub(market(total, value_date, exchange)), scrub(__tmp)) : 0))
+   fn_percent (report.cc:851-855) converts both arguments to amounts (a balance of several
+   commodities cannot be: an error) and returns 100% * (numerator / denominator).number().
+   Whether each market() call passes the -X commodity is re-read from the source
+   (Gen/PercentExpr.v): a call without it is the targetless lookup of -V. *)
+Inductive pres : Type := PErr | PVal (q : Q).
+
+Definition percent_of (n d : list (comm * Q)) : pres :=
+  match d with
+  | [] => PVal 0                         (* __tmp is zero: the expression yields 0 *)
+  | [(_, qd)] =>
+      match n with
+      | [] => PVal 0
+      | [(_, qn)] => PVal (Qred (100 * qn / qd))
+      | _ => PErr
+      end
+  | _ => PErr
+  end.
+
+Definition percent_row (l : list item) (held parent_held : list holding) (tgt : option comm) (D : Z) : pres :=
+  let tn := if percent_numerator_targeted then tgt else None in
+  let td := if percent_denominator_targeted then tgt else None in
+  percent_of (bal_row l held tn D) (bal_row l parent_held td D).
 
 (* `reg -X T`: in a posting's scope value_date is the posting's date (post.cc:353-360):
    display_amount and the running display_total are valued at midnight of that date *)
